@@ -95,11 +95,11 @@ def make_numint(env, fs, nspin, mode, version, nevals=1, slxc_type="HF", mul="GG
             for g in range(ng):
                 args = [r[a, c, g] for a in range(ns) for c in range(nv)]
                 n = sum((r[a, 0, g] for a in range(ns)), env.const(0))
-                exc[g] = slf.val(args) / n
+                exc[g] = slf.val(args)
                 k = 0
                 for a in range(ns):
                     for c in range(nv):
-                        v[a, c, g] = slf.grad(args, k)
+                        v[a, c, g] = n * slf.grad(args, k) + (exc[g] if c == 0 else 0)
                         k += 1
             return exc, (v if rho.ndim == 3 else v[0]), None, None
 
